@@ -117,6 +117,18 @@ Theorem C08_delivered_once_to_far_owner : forall owners ops h sender g x t,
 Proof. exact reach_delivered. Qed.
 Print Assumptions C08_delivered_once_to_far_owner.
 
+(* path_delay is the sum over the hops of (transmission time of the message at
+   the hop's bitrate + the hop's latency): the delay of an idle channel.  Scope:
+   each direction of a hop has its own channel instance; the statement covers
+   runs in which the traffic of one direction of a hop does not overlap in time
+   (no message meets a busy channel - busy/drop/queue is C07); opposite
+   directions may overlap freely. *)
+Theorem C08_path_delay_sum : forall p,
+  path_delay p = fold_right N.add 0
+    (map (fun c => match channel c with Some (lat, br) => tx br + lat | None => 0 end) p).
+Proof. exact path_delay_sum. Qed.
+Print Assumptions C08_path_delay_sum.
+
 (* the other direction: sent on the far end, the message reaches g's owner after the same total delay *)
 Theorem C08_both_directions : forall owners ops h sender g p t,
   let gs := sgates (fst (exec (init owners) ops)) in
@@ -173,24 +185,24 @@ Print Assumptions C08_script_deliveries.
 
 (* Non-vacuity: a 3-hop chain g3 - g1 - g0 - g2 over modules 0,1,2,0 built
    middle-first with mixed orientation (so g1 and g0 hold their onward
-   direction in slot 0 resp. slot 1), a 5 ns channel on g1-g0 and a 7 ns channel
-   on g0-g2, a self-connect, a query on a transit gate and an echo rule at g2. *)
+   direction in slot 0 resp. slot 1), a 5 ns latency channel on g1-g0 and a zero-latency
+   72 Gbit/s channel on g0-g2 (8 ns transmission time for the 72-byte message), a self-connect, a query on a transit gate and an echo rule at g2. *)
 Example C08_nonvacuous :
-  let ops := [Connect 0 1 (Some 5); Connect 2 0 (Some 7); Connect 3 1 None; Connect 1 0 None; Connect 2 2 None;
+  let ops := [Connect 0 1 (Some (5, 0)); Connect 2 0 (Some (0, 72000000000)); Connect 3 1 None; Connect 1 0 None; Connect 2 2 None;
               PathIter 3; PathIter 2; PathIter 0; Kind 1; NextGate 3; PathEnd 3; Send 3 10 0 0; Relay 2 2 1; Send 2 0 4 0; Send 3 0 0 2] in
   let r := exec (init [0; 1; 2; 0]) ops in
   snd r = [OUnit; OUnit; OUnit; OUnit; OPanic 1;
            OIter (Some [{| endpoint := 1; endpoint_id := S1; channel := None |};
-                        {| endpoint := 0; endpoint_id := S0; channel := Some 5 |};
-                        {| endpoint := 2; endpoint_id := S0; channel := Some 7 |}]);
-           OIter (Some [{| endpoint := 0; endpoint_id := S1; channel := Some 7 |};
-                        {| endpoint := 1; endpoint_id := S0; channel := Some 5 |};
+                        {| endpoint := 0; endpoint_id := S0; channel := Some (5, 0) |};
+                        {| endpoint := 2; endpoint_id := S0; channel := Some (0, 72000000000) |}]);
+           OIter (Some [{| endpoint := 0; endpoint_id := S1; channel := Some (0, 72000000000) |};
+                        {| endpoint := 1; endpoint_id := S0; channel := Some (5, 0) |};
                         {| endpoint := 3; endpoint_id := S0; channel := None |}]);
            OIter None; OKind Transit; ONext (Some 1); OEnd (Some 2); OSent; ORule; OSent; OSent] /\
   map (send_one (sgates (fst r)) (rules_of (sgates (fst r)) ops)) (sends_of (sgates (fst r)) ops) =
-    [[(0, SDelivered {| d_to := 2; d_time := 22; d_sender := 0; d_receiver := 2; d_last := 2 |})];
-     [(0, SDelivered {| d_to := 0; d_time := 16; d_sender := 2; d_receiver := 0; d_last := 3 |})];
+    [[(0, SDelivered {| d_to := 2; d_time := 23; d_sender := 0; d_receiver := 2; d_last := 2 |})];
+     [(0, SDelivered {| d_to := 0; d_time := 17; d_sender := 2; d_receiver := 0; d_last := 3 |})];
      (* budget 2: m0 sends on g3, m2 echoes the received object back on g2 after 1 ns (sender = m2), no rule at g3 *)
-     [(0, SDelivered {| d_to := 2; d_time := 12; d_sender := 0; d_receiver := 2; d_last := 2 |});
-      (1, SDelivered {| d_to := 0; d_time := 25; d_sender := 2; d_receiver := 0; d_last := 3 |})]].
+     [(0, SDelivered {| d_to := 2; d_time := 13; d_sender := 0; d_receiver := 2; d_last := 2 |});
+      (1, SDelivered {| d_to := 0; d_time := 27; d_sender := 2; d_receiver := 0; d_last := 3 |})]].
 Proof. vm_compute. split; reflexivity. Qed.
